@@ -232,7 +232,7 @@ Section Loops.
     arr_str_loop pretty sc fuel ind (lenN done) (lenN l) (4 + lo + 4 * lenN done) (4 + lo + 4 * lenN l + sum_len done)
     = Ok (goRf pretty ind rf (negb (0 <? lenN done)) todo).
   Proof.
-    intros PL W Hsc. induction todo as [|x t IH]; intros done fuel E Hf; (destruct fuel as [|fuel]; [cbn [length] in Hf; lia|]); cbn [arr_str_loop].
+    intros PL W Hsc. induction todo as [|x t IH]; intros done fuel E Hf; (destruct fuel as [|fuel]; [cbn [length] in Hf; lia|]); cbn [arr_str_loop]; unfold STS_JSTEP.
     - rewrite app_nil_r in E. subst done. rewrite N.ltb_irrefl. reflexivity.
     - assert (H1 : lenN l = lenN done + (1 + lenN t)) by (rewrite E, lenN_app, lenN_cons; reflexivity).
       replace (lenN done <? lenN l) with true by (symmetry; apply N.ltb_lt; lia).
@@ -267,7 +267,7 @@ Section Loops.
                  (4 + lo + 8 * lenN o + sum_keys o + sum_len (vals done))
     = Ok (goROf pretty ind rf (negb (0 <? lenN done)) todo).
   Proof.
-    intros PL W U Hsc. induction todo as [|[k x] t IH]; intros done E; cbn [kws map obj_str_loop]; [reflexivity|].
+    intros PL W U Hsc. induction todo as [|[k x] t IH]; intros done E; cbn [kws map obj_str_loop]; [reflexivity|]. unfold STS_JSTEP.
     fold (kws t). cbn [fst].
     assert (Hk : wf_size x = true /\ lenN k < 268435456).
     { unfold obj_ok in W. rewrite E in W. apply Forall_app in W. destruct W as [_ W]. inversion W as [|? ? Hh ?]. exact Hh. }
@@ -314,7 +314,7 @@ Section Containers.
   Proof.
     intros Wx PL Hsc. destruct (wf_arr l Wx) as [Hall Hn].
     assert (W : Forall (fun v => wf_size v = true) l) by (eapply Forall_impl; [|exact Hall]; intros v; apply wfb_size).
-    unfold container_str_w.
+    unfold container_str_w, CTS_SC_JOFF, CTS_SC_VOFF, CTS_ARR_JOFF, CTS_ARR_VOFF, CTS_OBJ_JOFF, CTS_OBJ_KOFF, CTS_OBJ_JSTEP, CTS_OBJ_VOFF.
     assert (RH : read_u32 V lo = Some (arr_hdr l)) by (destruct PL as (A & B & EL & ELo); rewrite EL, ELo; apply (read_hdr_arr A l B Hn)).
     rewrite RH. destruct (arr_hdr_facts l Hn) as (_ & T & L'). rewrite T, L'.
     change (ARRAY_CONTAINER_TAG =? SCALAR_CONTAINER_TAG) with false. rewrite N.eqb_refl. cbv iota.
@@ -331,7 +331,7 @@ Section Containers.
   Proof.
     intros Wx PL Hsc. destruct (obj_ok_of_wf o Wx) as [Ho Hn]. destruct (wf_obj o Wx) as (Hall & _ & _).
     assert (U : Forall (fun kv => utf8_valid (fst kv) = true) o) by (eapply Forall_impl; [|exact Hall]; intros kv (_ & H & _); exact H).
-    unfold container_str_w.
+    unfold container_str_w, CTS_SC_JOFF, CTS_SC_VOFF, CTS_ARR_JOFF, CTS_ARR_VOFF, CTS_OBJ_JOFF, CTS_OBJ_KOFF, CTS_OBJ_JSTEP, CTS_OBJ_VOFF.
     assert (RH : read_u32 V lo = Some (obj_hdr o)) by (destruct PL as (A & B & EL & ELo); rewrite EL, ELo; apply (read_hdr_obj A o B Hn)).
     rewrite RH. destruct (obj_hdr_facts o Hn) as (_ & T & L'). rewrite T, L'.
     change (OBJECT_CONTAINER_TAG =? SCALAR_CONTAINER_TAG) with false. change (OBJECT_CONTAINER_TAG =? ARRAY_CONTAINER_TAG) with false.
@@ -402,7 +402,7 @@ Proof.
       apply (container_obj_entry pf (enc (VObj o)) pretty _ o 0 0 Wv PV).
       intros kv Hx joff lo' R1 P1. apply scalar_str_entry;
         [rewrite Forall_forall in Hall; apply (Hall kv Hx)|cbn [depth] in Hd; pose proof (fold_max_le_obj o kv Hx); lia|exact R1|exact P1].
-  - unfold container_str_w. rewrite (scalar_hdr v Cv).
+  - unfold container_str_w, CTS_SC_JOFF, CTS_SC_VOFF, CTS_ARR_JOFF, CTS_ARR_VOFF, CTS_OBJ_JOFF, CTS_OBJ_KOFF, CTS_OBJ_JSTEP, CTS_OBJ_VOFF. rewrite (scalar_hdr v Cv).
     change (hdr_type SCALAR_CONTAINER_TAG =? SCALAR_CONTAINER_TAG) with true. cbv iota.
     pose proof (rd_scalar_word v Cv Sv) as RW. unfold rd in RW. destruct (read_u32 (enc v) 4) as [w|] eqn:Er; [|discriminate RW].
     cbn [of_option] in RW. injection RW as ->.
@@ -469,7 +469,7 @@ Section NoFuel.
   Lemma arr_loop_not_fuel : forall k ind i len j v, (1 <= k)%nat -> lenN V < j + 4 * N.of_nat k -> J <= j -> j + 4 * (len - i) <= v ->
     not_fuel (arr_str_loop pretty sc k ind i len j v).
   Proof.
-    induction k as [|k IH]; intros ind i len j v Hk Hl Hj Hv; [lia|]. cbn [arr_str_loop].
+    induction k as [|k IH]; intros ind i len j v Hk Hl Hj Hv; [lia|]. cbn [arr_str_loop]; unfold STS_JSTEP.
     destruct (i <? len) eqn:E; [|discriminate]. apply N.ltb_lt in E.
     pose proof (Hnf (ind + 2)%nat j v Hj ltac:(lia)) as S1.
     destruct (sc (ind + 2)%nat j v) as [[t l]|e|] eqn:Es; cbn [bind]; [|exact (not_fuel_err _ S1)|discriminate].
@@ -481,7 +481,7 @@ Section NoFuel.
   Lemma obj_loop_not_fuel : forall kws ind i j koff v, J <= j -> j + 4 * lenN kws <= v ->
     not_fuel (obj_str_loop V pretty sc kws ind i j koff v).
   Proof.
-    induction kws as [|kw r IH]; intros ind i j koff v Hj Hv; cbn [obj_str_loop]; [discriminate|].
+    induction kws as [|kw r IH]; intros ind i j koff v Hj Hv; cbn [obj_str_loop]; [discriminate|]. unfold STS_JSTEP.
     rewrite lenN_cons in Hv.
     pose proof (escape_range_not_err V koff (koff + je_len kw)) as S0.
     destruct (escape_range_w V koff (koff + je_len kw)) as [k|e|]; cbn [bind]; [|exfalso; apply (S0 e); reflexivity|discriminate].
@@ -497,7 +497,7 @@ Lemma container_not_fuel V pretty sc ind off :
   (off + 4 <= lenN V -> forall ind j v, 4 + off <= j -> j + 4 <= v -> not_fuel (sc ind j v)) ->
   not_fuel (container_str_w V pretty sc ind off).
 Proof.
-  intros Hok Hnf. unfold container_str_w. destruct (read_u32 V off) as [h|] eqn:RH; [|discriminate].
+  intros Hok Hnf. unfold container_str_w, CTS_SC_JOFF, CTS_SC_VOFF, CTS_ARR_JOFF, CTS_ARR_VOFF, CTS_OBJ_JOFF, CTS_OBJ_KOFF, CTS_OBJ_JSTEP, CTS_OBJ_VOFF. destruct (read_u32 V off) as [h|] eqn:RH; [|discriminate].
   specialize (Hnf (read_u32_bound _ _ _ RH)).
   destruct (hdr_type h =? SCALAR_CONTAINER_TAG).
   { pose proof (Hnf ind (4 + off) (8 + off) ltac:(lia) ltac:(lia)) as S1.
